@@ -1036,8 +1036,8 @@ def derivative_curve(obj):
     pkl = helpers.curve_deriv_cpts(obj.dimension, obj.degree, obj.knotvector, obj.ctrlpts,
                                           rs=(0, obj.ctrlpts_size - 1), deriv_order=1)
 
-    # Generate the derivative curve
-    curve = obj.__class__()
+    # Generate the derivative curve (on the same parametric domain as the input)
+    curve = obj.__class__(normalize_kv=obj._kv_normalize)
     curve.degree = obj.degree - 1
     curve.ctrlpts = pkl[1][0:-1]
     curve.knotvector = obj.knotvector[1:-1]
@@ -1343,8 +1343,8 @@ def derivative_surface(obj):
     for i in range(0, len(pkl[1][1]) - 1):
         ctrlpts2d_uv.append(pkl[1][1][i][0:-1])
 
-    # Generate the derivative curve
-    surf_uv = obj.__class__()
+    # Generate the derivative surface (on the same parametric domain as the input)
+    surf_uv = obj.__class__(normalize_kv=obj._kv_normalize)
     surf_uv.degree_u = obj.degree_u - 1
     surf_uv.degree_v = obj.degree_v - 1
     surf_uv.ctrlpts2d = ctrlpts2d_uv
